@@ -477,6 +477,32 @@ func (ps *ProtoSession) Finish() {
 			i.P.Wait(t.OpenMark, 5*time.Second, func(e gw.Event) bool { return e.Cid == t.Cid && e.Pt == "gw.exit" })
 		}
 	}()
+	// a tunnel whose packet loop has ended is over for the client as well: the gateway closes the connection it answers
+	// on (the client of this script has not hung up - it even went on sending)
+	if t.Exited && !t.Broken {
+		closed := "timeout"
+		if t.WS != nil {
+			closed = t.WS.WaitEOF(3 * time.Second)
+		} else if t.Out != nil {
+			closed = t.Out.WaitEOF(3 * time.Second)
+		}
+		lastk, lastresp := "none", []int{-1, -1}
+		for k := len(ps.Lines) - 1; k >= 0; k-- {
+			l := ps.Lines[k]
+			if l["ev"] != "pkt" {
+				continue
+			}
+			o, _ := l["o"].(M)
+			if o == nil || o["skipped"] == true {
+				continue
+			}
+			if p, ok := l["p"].(M); ok {
+				lastk = fmt.Sprint(p["k"])
+			}
+			break
+		}
+		ps.Lines = append(ps.Lines, M{"ev": "fin", "closed": closed != "timeout", "how": closed, "lastk": lastk, "lastresp": lastresp})
+	}
 	if extra := t.AfterEnd(); len(extra) > 0 {
 		resps, dials, nf := 0, []interface{}{}, 0
 		for _, e := range extra {
